@@ -44,6 +44,8 @@ RULE = (
     't cli: the spawned command line judges a tree with / without an inject'
     'ed violation while the other variant of the same package is importable'
     ' (PYTHONPATH). '
+    ' For accepted packages the graph the scheduler built is compared with '
+    "the declarations (C09's oracle). "
 )
 ASSUMPTIONS = [
     'a package is "accepted" when _verify(_scan()) returns True (the command '
